@@ -6,7 +6,8 @@ SetToSeq(S) == LET RECURSIVE F(_) F(T) == IF T = {} THEN <<>> ELSE LET x == CHOO
 \* compact projection: per endpoint <<status, fail, lastFail, send, aSucc, aBlock, aCheck, aKeep>>
 Proj == [h  |-> [e \in Eps |-> <<h[e].status, h[e].fail, h[e].lastFail, h[e].send, h[e].aSucc, h[e].aBlock, h[e].aCheck, h[e].aKeep>>],
          cr |-> SetToSeq(created), ac |-> SetToSeq(active), pq |-> probeQ, li |-> SetToSeq(listed),
-         fl |-> [c \in Calls |-> <<infl[c].ep, infl[c].probe>>]]
+         fl |-> [c \in Calls |-> <<infl[c].ep, infl[c].probe>>],
+         up |-> SetToSeq({e \in Eps : up[e]})]
 BreaksSeq(S) == LET RECURSIVE F(_) F(T) == IF T = {} THEN <<>> ELSE LET x == CHOOSE y \in T : TRUE IN <<x>> \o F(T \ {x}) IN F(S)
 StepRec(a, c, e, k, ok, d, cs) == [a |-> a, c |-> c, e |-> e, k |-> k, ok |-> ok, d |-> d, cands |-> cs, st |-> Proj',
                                    breaks |-> BreaksSeq(StepBreaks(a = "Check"))]
